@@ -39,11 +39,32 @@ def family():
                "types": [D.TYPENUM[t] for t in TYPEORDER[k:]], "limit": lim, "edns": edns}
 
 
+def decision_class(r):
+    """The branch of the handshake decision procedure (as modelled in spec/Negotiation.tla) this relay exercises:
+    record-type class, outcome of the upstream bounce tests, outcome of each downstream codec test."""
+    first = TYPEORDER.index(D.TYPENAMES[r["types"][0]]) + 1
+    tclass = "raw" if first == 1 else "txt" if first in (2, 3) else "host"
+    keepq = r["qcase"] == "keep"
+    up = "b32" if not keepq else "b128" if r["q8"] == "clean" else "b64" if r["qpunct"] != "plus" else \
+        "b64u" if r["qpunct"] != "under" else "b32"
+    keepa = r["acase"] == "keep"
+    tests = (keepa and r["apunct"] != "plus", keepa and r["apunct"] != "under", keepa and r["a8"] == "clean",
+             keepa and r["a8"] == "clean" and r["apunct"] != "under")
+    return (tclass, up, tests, r["limit"] in (512, 1232) or not r["edns"])
+
+
 def specs(tier, seed):
     rng = random.Random(seed)
     fam = list(family())
     if tier == "quick":
-        pick = rng.sample(fam, 330)
+        # model-guided sample: at least two relays from every decision class of Negotiation.tla, the rest random
+        classes = {}
+        for r in fam:
+            classes.setdefault(decision_class(r), []).append(r)
+        pick = []
+        for k in sorted(classes, key=str):
+            pick += rng.sample(classes[k], min(2, len(classes[k])))
+        pick += rng.sample(fam, max(0, 330 - len(pick)))
         # make sure every value of every dimension occurs with every value of every other dimension at least once
         for (d1, v1s), (d2, v2s) in itertools.combinations([("qcase", CASES), ("q8", EIGHT), ("qpunct", PUNCT), ("acase", CASES),
                                                             ("a8", EIGHT), ("apunct", PUNCT), ("limit", LIMITS)], 2):
@@ -53,9 +74,11 @@ def specs(tier, seed):
                         pick.append(rng.choice([r for r in fam if r[d1] == v1 and r[d2] == v2]))
     else:
         pick = fam if len(fam) <= 80000 else rng.sample(fam, 80000)
+    nauto = len(pick)
+    pick = pick + rng.sample(fam, 60 if tier == "quick" else len(fam) // 5)      # forced -T / -O on top
     out = []
     for i, relay in enumerate(pick):
-        forced = i % 5 == 4
+        forced = i >= nauto
         sess = {"qtype": None, "downenc": None, "lazy": rng.choice([0, 1])}
         if forced:
             sess["qtype"] = rng.choice(TYPEORDER)
